@@ -371,6 +371,9 @@ def rule_enum(ctx):
         ctx.check(ok, "C01.ENUM", f.short, f"{dst} = instance of every entry of {src_attr}", f"{ci.name}.__init__ does not instantiate every entry of {src_attr} (unfiltered)", fi=f, text=f"instantiate:{dst}")
 
 
+# necessary conditions of convergence that other properties' rules decide (router policy independence, definitions, publication, client mirror, framing)
+IMPORTS = [('C05', 'C05.KEY'), ('C05', 'C05.PRED'), ('C07', 'C07.BRANCH'), ('C07', 'C07.DISABLED'), ('C14', 'C14.SETTER'), ('C15', 'C15.MIRROR'), ('C02', 'C02.LOOP'), ('C02', 'C02.CONSUME'), ('C09', 'C09.STEP')]
+
 RULES = [
     ("C01.PUB", rule_pub, "publish after every authoritative store (exemption table with reasons)"),
     ("C01.ORDER", rule_order, "enabled setters: store, definition/delProperty, update - for every vector of a group"),
